@@ -808,9 +808,17 @@ impl DcpsDomainParticipant {
                     .iter()
                     .filter(|x| x.dds_subscription_data.topic_name.value == writer_topic_name)
                 {
+                    // A matched reader is evaluated again only if it announced new data or if
+                    // set_qos on the local writer made it incompatible
                     if data_writer
                         .matched_subscription_list
                         .contains(&discovered_reader_data.dds_subscription_data)
+                        && get_discovered_reader_incompatible_qos_policy_list(
+                            &data_writer.qos,
+                            &discovered_reader_data.dds_subscription_data,
+                            &publisher.qos,
+                        )
+                        .is_empty()
                     {
                         continue;
                     }
@@ -1330,9 +1338,17 @@ impl DcpsDomainParticipant {
                     .iter()
                     .filter(|x| x.dds_publication_data.topic_name() == reader_topic_name)
                 {
+                    // A matched writer is evaluated again only if it announced new data or if
+                    // set_qos on the local reader made it incompatible
                     if data_reader
                         .matched_publication_list
                         .contains(&discovered_writer_data.dds_publication_data)
+                        && get_discovered_writer_incompatible_qos_policy_list(
+                            data_reader,
+                            &discovered_writer_data.dds_publication_data,
+                            &subscriber_qos,
+                        )
+                        .is_empty()
                     {
                         continue;
                     }
